@@ -578,6 +578,123 @@ func extractC20Handlers(cfg *packages.Config, repo, out string) error {
 		return qcalls[i].Where < qcalls[j].Where
 	})
 
+	// ---- implicit nil dereferences of optional request parts behind a query ----
+	// gogoproto decodes an absent message-typed field (`pagination`, …) to a nil pointer.  Getter METHODS are nil-safe; a FIELD
+	// selection `req.Pagination.Limit` is not.  For every function a query method reaches and every parameter of type
+	// `*Query…Request`: each field selection THROUGH a pointer-typed field of the request, with whether a nil test of that
+	// pointer dominates it (enclosing `if … != nil`, the left operand of the same `&&`, or an earlier `if … == nil { …; return }`).
+	type qDeref struct {
+		Fn      int
+		Func    string
+		Expr    string
+		Ptr     string
+		Guarded bool
+		Where   string
+	}
+	var qderefs []qDeref
+	qreqParams := 0
+	for _, n := range nodes {
+		if !queryReach[n.id] || n.fd.Type.Params == nil {
+			continue
+		}
+		info := n.p.TypesInfo
+		reqs := map[string]bool{}
+		for _, f := range n.fd.Type.Params.List {
+			for _, nm := range f.Names {
+				if tv, ok := info.Types[f.Type]; ok {
+					if pt, ok := tv.Type.(*types.Pointer); ok {
+						tn := hNamed(pt)
+						if strings.HasPrefix(tn, "Query") && strings.HasSuffix(tn, "Request") {
+							reqs[nm.Name] = true
+							qreqParams++
+						}
+					}
+				}
+			}
+		}
+		if len(reqs) == 0 {
+			continue
+		}
+		rootOf := func(e ast.Expr) string {
+			for {
+				switch x := e.(type) {
+				case *ast.SelectorExpr:
+					e = x.X
+				case *ast.Ident:
+					return x.Name
+				default:
+					return ""
+				}
+			}
+		}
+		norm := func(x ast.Node) string { return strings.Join(strings.Fields(src0(n.p.Fset, x)), " ") }
+		var stack []ast.Node
+		ast.Inspect(n.fd.Body, func(x ast.Node) bool {
+			if x == nil {
+				stack = stack[:len(stack)-1]
+				return true
+			}
+			stack = append(stack, x)
+			se, ok := x.(*ast.SelectorExpr)
+			if !ok {
+				return true
+			}
+			inner, ok := se.X.(*ast.SelectorExpr)
+			if !ok || !reqs[rootOf(inner)] {
+				return true
+			}
+			// the outer selection must be a field, the inner expression a pointer
+			if v, ok := info.Uses[se.Sel].(*types.Var); !ok || !v.IsField() {
+				return true
+			}
+			tv, ok := info.Types[inner]
+			if !ok {
+				return true
+			}
+			if _, isPtr := tv.Type.(*types.Pointer); !isPtr {
+				return true
+			}
+			ptr := norm(inner)
+			guarded := false
+			for i := len(stack) - 2; i >= 0 && !guarded; i-- {
+				switch y := stack[i].(type) {
+				case *ast.IfStmt:
+					if i+1 < len(stack) && stack[i+1] == ast.Node(y.Body) && strings.Contains(norm(y.Cond), ptr+" != nil") {
+						guarded = true
+					}
+				case *ast.BinaryExpr:
+					if y.Op == token.LAND && i+1 < len(stack) && stack[i+1] == ast.Node(y.Y) && strings.Contains(norm(y.X), ptr+" != nil") {
+						guarded = true
+					}
+					if y.Op == token.LOR && i+1 < len(stack) && stack[i+1] == ast.Node(y.Y) && strings.Contains(norm(y.X), ptr+" == nil") {
+						guarded = true
+					}
+				}
+			}
+			if !guarded {
+				for _, st := range n.fd.Body.List {
+					is, ok := st.(*ast.IfStmt)
+					if !ok || is.End() > se.Pos() || len(is.Body.List) == 0 {
+						continue
+					}
+					if _, isRet := is.Body.List[len(is.Body.List)-1].(*ast.ReturnStmt); isRet && strings.Contains(norm(is.Cond), ptr+" == nil") {
+						guarded = true
+					}
+				}
+			}
+			pos := n.p.Fset.Position(se.Pos())
+			qderefs = append(qderefs, qDeref{Fn: n.id, Func: n.name, Expr: norm(se), Ptr: ptr, Guarded: guarded,
+				Where: fmt.Sprintf("%s:%d", strings.TrimPrefix(pos.Filename, repo+"/"), pos.Line)})
+			return true
+		})
+	}
+	sort.SliceStable(qderefs, func(i, j int) bool {
+		if qderefs[i].Func != qderefs[j].Func {
+			return qderefs[i].Func < qderefs[j].Func
+		}
+		return qderefs[i].Where < qderefs[j].Where
+	})
+
 	// baseapp facts
 	runTxRecoversFirst, blockFnsRecover, deliverCallsRunTx := false, true, false
 	var blockFns []string
@@ -878,6 +995,16 @@ func extractC20Handlers(cfg *packages.Config, repo, out string) error {
 			sep = ""
 		}
 		fmt.Fprintf(&sb, "  ⟨%d, %d, %s, %s, %v⟩%s  -- %s -> %s at %s\n", c.Caller, c.Callee, q(c.Guard), q(c.Arg), c.Guarded, sep, c.CallerName, c.CalleeName, c.Where)
+	}
+	sb.WriteString("]\n\n")
+	fmt.Fprintf(&sb, "/-- number of `*Query…Request` parameters of query-reachable functions that were inspected -/\ndef qreqParams : Nat := %d\n\n", qreqParams)
+	sb.WriteString("/-- every FIELD selection through a pointer-typed field of a `*Query…Request` parameter (an absent optional part decodes to nil) in a\nfunction a gRPC query method reaches: (function, expression, the pointer, is a nil test of that pointer dominating) -/\ndef qderefs : List QDeref := [\n")
+	for i, d := range qderefs {
+		sep := ","
+		if i == len(qderefs)-1 {
+			sep = ""
+		}
+		fmt.Fprintf(&sb, "  ⟨%d, %s, %s, %v⟩%s  -- %s at %s\n", d.Fn, q(d.Expr), q(d.Ptr), d.Guarded, sep, d.Func, d.Where)
 	}
 	sb.WriteString("]\n\n")
 	fmt.Fprintf(&sb, "/-- cosmos-sdk baseapp (module cache): `BaseApp.Query` installs a deferred `recover()` before it routes the request -/\ndef abciQueryRecoversFirst : Bool := %v\n", abciQueryRecoversFirst)
